@@ -97,7 +97,70 @@ impl EventIdGenerator {
     }
 }
 
+#[cfg(kani)]
+impl EventIdGenerator {
+    /// Verification hook (cfg(kani) only): build a generator in an arbitrary state.
+    pub fn verif_from_parts(last_millis: u64, sequence: u16) -> Self {
+        Self {
+            last_millis,
+            sequence,
+        }
+    }
+
+    /// Verification hook (cfg(kani) only): expose the generator state.
+    pub fn verif_parts(&self) -> (u64, u16) {
+        (self.last_millis, self.sequence)
+    }
+}
+
+/// Verification hook (cfg(kani) only): injectable millisecond clock for the id generator.
+/// `set_script` installs up to four readings that `current_millis` returns in order; once the
+/// script is exhausted every further reading is one millisecond past the previous one.
+#[cfg(kani)]
+pub mod verif_clock {
+    static mut SCRIPT: [u64; 4] = [0; 4];
+    static mut LEN: usize = 0;
+    static mut POS: usize = 0;
+    static mut LAST: u64 = 0;
+
+    pub fn set_script(readings: &[u64]) {
+        unsafe {
+            LEN = readings.len().min(4);
+            POS = 0;
+            let mut i = 0;
+            while i < LEN {
+                SCRIPT[i] = readings[i];
+                i += 1;
+            }
+        }
+    }
+
+    pub fn reads() -> usize {
+        unsafe { POS }
+    }
+
+    pub(super) fn next() -> Option<u64> {
+        unsafe {
+            if LEN == 0 {
+                return None;
+            }
+            let v = if POS < LEN {
+                SCRIPT[POS]
+            } else {
+                LAST.wrapping_add(1)
+            };
+            POS += 1;
+            LAST = v;
+            Some(v)
+        }
+    }
+}
+
 fn current_millis() -> u64 {
+    #[cfg(kani)]
+    if let Some(ms) = verif_clock::next() {
+        return ms;
+    }
     SystemTime::now()
         .duration_since(UNIX_EPOCH)
         .unwrap_or(Duration::ZERO)
